@@ -266,6 +266,53 @@ NOT_APPLICABLE = {}
 PENDING_REASON = 'check not built yet (work in progress; see DESIGN.md §5 for the planned static rule)'
 
 
+# clauses added after the first version of the table (appended to the texts above)
+ADDED = {
+    'C01': dict(text=' E8: every call-graph cycle between the interposer and the real call is a listed bounded recursion or '
+                     'cut by the error handler\'s re-entrancy guard. E9: no alloca, no run-time sized array on that path.'),
+    'C02': dict(text=' Loads: every load through a subscript/dereference of a character object of known extent, every sized '
+                     'reader (memcpy source, write, send) and every (pointer, length) read contract at call sites is an '
+                     'obligation of the same engine. A9: automatic char arrays and malloc()ed buffers are written before they '
+                     'are read (alias-aware dataflow, read-first summaries of callees). H1: every loop changes something one '
+                     'of its exit conditions depends on. Name tables: the terminator row is never selected (dataflow since '
+                     'the index last changed) in the option table and the generic registry.',
+               note=' H1 is a necessary condition, not a termination proof.'),
+    'C03': dict(text=' B6: no unbounded recursion (call-graph cycles are listed bounded recursions or cut by a re-entrancy '
+                     'guard whose flag is off at every call that stays on the cycle). B7: stack use independent of '
+                     'configuration and input (no alloca / run-time sized arrays, frames below 64 KiB).'),
+    'C05': dict(text=' L4: the buffer sized by the data-source limit is written only by the data source call and the reset, '
+                     'so literal text of the format is never cut to that limit.',
+               note=' Byte-for-byte copy of literals beyond L4 is not decided.'),
+    'C08': dict(text=' T4 also: the text handed to strtoull consists of characters that passed isdigit() (or starts with one), '
+                     'so white space and signs are not taken as numbers.',
+               note=' What an unparsable value does after a valid earlier occurrence of the same option is not determined by '
+                    'the statement (the pinned tree resets syslog_facility/level and the lengths but keeps error_logging): no rule.'),
+    'C10': dict(text=' FK4: no lock of a kind the fork handlers cannot release in the child (flock/lockf/fcntl locks on '
+                     'inherited descriptors, semaphores, rwlocks, spinlocks, condition waits) on the exec path; mutex '
+                     'attribute objects are identified by declaration, global or local.'),
+    'C12': dict(text=' W1: root process name - for each class of parent pid (1, 0, lookup failure, other) the walk takes the '
+                     'documented step (value-pruned path exploration).',
+               note=' A writer being offered less than its buffer (strftime with size-1) is not reported.'),
+    'C15': dict(text=' X4: the name list handed to the NULL-terminated scan is dense (no way round the fill loop advances the '
+                     'slot index without storing) and terminated.',
+               note=' A comparison not built on strcmp ends analysis-broken (exit 2), not pass.'),
+    'C18': dict(text=' Q7: the active-line search walks back to the start of the content (never to a moving cursor) and the '
+                     'character classified as "#" is the first of its line on every path; "already enabled" is decided by the '
+                     'strict entry search.',
+               note_replace='Not decided: the byte-level result beyond these clauses; agreement with status.'),
+    'C19': dict(text=' The remainder copy starts inside the entry\'s line (at most one byte behind it) and where it starts is '
+                     'chosen by a condition on what follows the entry on that line, so libraries sharing the line stay.',
+               note_replace='Not decided: which separators remain on a shared line; CR-LF files; byte-level result in general.'),
+    'C20': dict(text=' A raw write() of the content must have its result compared with the byte count (short writes are failures).'),
+}
+for _pid, _a in ADDED.items():
+    CLAIMED[_pid]['text'] += _a.get('text', '')
+    if 'note_replace' in _a:
+        CLAIMED[_pid]['note'] = _a['note_replace']
+    CLAIMED[_pid]['note'] += _a.get('note', '')
+
+
+
 def main():
     checks = []
     for pid in sorted(CLAIMED):
